@@ -18,7 +18,7 @@ using namespace vf;
 struct PolMon { typedef MonThreading Threading; };
 struct PolMonSpin { typedef MonSpinThreading Threading; };
 
-enum { ROLE_WAITER = 1, ROLE_ENQ = 2, MAXEV = 2048 };
+enum { ROLE_WAITER = 1, ROLE_ENQ = 2, ROLE_POLL = 3, MAXEV = 2048 };
 #if defined(VF_TSAN)
 static const bool kTicks = false;
 #else
@@ -35,14 +35,15 @@ struct Shared
 	std::atomic<uint64_t> enqStart[MAXEV];
 	std::atomic<uint64_t> doneLate[MAXEV]; // tick after the processing call that dispatched it returned
 	std::atomic<int> dispatched, enqueued;
-	std::atomic<bool> stop, aborting;
+	std::atomic<bool> stop, aborting, pollStop;
+	std::atomic<long> polls;
 	std::atomic<int> enqLeft;
 	std::vector<Interval> waits[MAXTHREADS];
 	std::vector<Interval> dqns[MAXTHREADS];
 	std::vector<int> batch[MAXTHREADS];
 	void reset() {
 		for(int i = 0; i < MAXEV; ++i) { state[i].store(0, std::memory_order_relaxed); enqStart[i].store(0, std::memory_order_relaxed); doneLate[i].store(~0ULL, std::memory_order_relaxed); }
-		dispatched = 0; enqueued = 0; stop = false; aborting = false; enqLeft = 0;
+		dispatched = 0; enqueued = 0; stop = false; aborting = false; pollStop = false; polls = 0; enqLeft = 0;
 		for(int i = 0; i < MAXTHREADS; ++i) { waits[i].clear(); dqns[i].clear(); batch[i].clear(); }
 	}
 };
@@ -70,6 +71,7 @@ struct Scenario
 	uint32_t plan[3][12]; // per step: low 2 bits = DisableQueueNotify nesting depth (0..3), next 3 bits = events (1..4 -> +1), next bits = pause
 	bool drainAll;
 	bool enqueuerProcesses;
+	int poller;          // 0 none, 1 a thread keeps calling processIf with a predicate that declines everything, 2 processUntil that stops at once
 };
 
 // homogeneous queue: has DisableQueueNotify
@@ -133,6 +135,23 @@ struct Runner
 		catch(const SelfDeadlock &) { violation("deadlock:self-relock", "waiter re-locked a mutex it owns"); }
 	}
 
+	// a processing thread that takes the pending events out and puts all of them back (it never consumes and never notifies):
+	// while the events are out the queue list is empty, which is what an unlocked reader on another thread can see
+	struct DeclineAll { template <typename ...A> bool operator() (A && ...) const { perturb("poller.predicate"); return false; } };
+	struct StopAtOnce { template <typename ...A> bool operator() (A && ...) const { perturb("poller.predicate"); return true; } };
+	template <typename QQ> static auto pollUntil(QQ & qq, int) -> decltype(qq.processUntil(StopAtOnce()), void()) { qq.processUntil(StopAtOnce()); }
+	template <typename QQ> static void pollUntil(QQ & qq, long) { qq.processIf(DeclineAll()); }
+	void poller(int tid) {
+		threadBegin(tid, ROLE_POLL, caseSeed);
+		try {
+			while(! S->pollStop.load(std::memory_order_relaxed)) {
+				if(sc.poller == 2) pollUntil(q, 0); else q.processIf(DeclineAll());
+				S->polls.fetch_add(1, std::memory_order_relaxed);
+			}
+		}
+		catch(const SelfDeadlock &) { violation("deadlock:self-relock", "poller re-locked a mutex it owns"); }
+	}
+
 	void scopes(int tid, int depth, int nEvents, int & nextEid, int pauseUs) {
 		if(depth == 0) {
 			for(int i = 0; i < nEvents; ++i) {
@@ -181,6 +200,7 @@ static void pickWindow(Rng & rng)
 		"lock.pre", "lock.post", "unlock.post", "cv.notify.pre", "q.queueList.cs", "racy-read.end" };
 	Sched & s = sched();
 	s.seed = rng.next();
+	s.tag2 = -1;
 	const uint32_t m = rng.below(10);
 	s.pRandom = (int)(5 + rng.below(40));
 	if(m < 1) { s.mode = 0; return; }
@@ -216,7 +236,36 @@ static void runScenario(uint64_t caseNo, Rng & rng, const char * cfgName)
 	// template aimed at the window of the statement: a waiter re-enters wait() (after draining a plain enqueue) while the
 	// enqueuer is inside a DisableQueueNotify scope that is its LAST notifying action; the waiter is delayed between its
 	// predicate evaluation and its blocking
-	if(! timedScenario && QTraits<Q>::hasDqn && rng.chance(1, 4)) {
+	sc.poller = 0;
+	if(! timedScenario && rng.chance(1, 5)) {
+		// template 3: plain enqueues (each one the only thing that can wake the waiter) while a third thread keeps taking the pending
+		// events out and putting them back (processIf declining everything / processUntil stopping at once).  The enqueuer is delayed
+		// between the two unlocked reads it may make to decide whether to notify.
+		count("template3_scenarios");
+		sc.poller = 1 + (int)rng.below(2);
+		sc.enqueuers = 1;
+		sc.enqueuerProcesses = false;
+		sc.waiters = 1 + (int)rng.below(2);
+		sc.steps[0] = 1 + (int)rng.below(4);
+		for(int i = 0; i < sc.steps[0]; ++i) sc.plan[0][i] = (uint32_t)((rng.below(2) << 2) | (1u << 16) | (rng.below(700) << 17)); // 1-2 events, no DisableQueueNotify, pause afterwards
+		Sched & s = sched();
+		s.mode = 2;
+		static const char * kT[] = { "atomic.load.racy", "atomic.load.racy", "atomic.load.racy", "unlock.post", "atomic.load.pre" };
+		s.tag = tags().idOf(kT[rng.below(5)]);
+		s.role = ROLE_ENQ;
+		s.nth = 1 + (int)rng.below(3);
+		s.delayUs = 300 + (int)rng.below(1500);
+		s.pRandom = (int)(100 + rng.below(300));
+		if(rng.chance(2, 3)) {
+			// the sharpest form: ONE enqueue in the whole scenario; the enqueuer is delayed after releasing the queue mutex (the poller
+			// takes the event out) and again before the second of its unlocked reads (the poller puts the event back)
+			sc.steps[0] = 1; sc.plan[0][0] = 0;
+			s.tag = tags().idOf("unlock.post"); s.nth = 1 + (int)rng.below(2); s.delayUs = 20 + (int)rng.below(400);
+			s.tag2 = tags().idOf("atomic.load.racy"); s.nth2 = 1; s.delayUs2 = 300 + (int)rng.below(1500);
+			s.pRandom = (int)rng.below(60);
+		}
+	}
+	else if(! timedScenario && QTraits<Q>::hasDqn && rng.chance(1, 4)) {
 		// template 2: one thread ends an EMPTY DisableQueueNotify scope while another thread makes a plain enqueue that is its
 		// last action; the plain enqueuer is delayed around its read of the notification counter / before taking the queue mutex
 		count("template2_scenarios");
@@ -257,7 +306,7 @@ static void runScenario(uint64_t caseNo, Rng & rng, const char * cfgName)
 
 	std::string desc = std::string("config ") + cfgName + ": waiters=" + num(sc.waiters) + " (";
 	for(int w = 0; w < sc.waiters; ++w) desc += std::string(w ? "," : "") + (sc.waitKind[w] == 0 ? "wait" : sc.waitKind[w] == 1 ? "waitFor(long)" : "waitFor(" + num(sc.shortMs[w]) + "ms)");
-	desc += ") enqueuers=" + num(sc.enqueuers) + (sc.enqueuerProcesses ? " (enqueuers also call process())" : "") + " sched.mode=" + num(sd.mode.load()) + " tag=" + (sd.mode.load() == 2 ? tags().name[sd.tag.load()] : "-") + " role=" + num(sd.role.load())
+	desc += ") enqueuers=" + num(sc.enqueuers) + (sc.enqueuerProcesses ? " (enqueuers also call process())" : "") + (sc.poller == 1 ? " +poller(processIf declining all)" : sc.poller == 2 ? " +poller(processUntil stopping at once)" : "") + " sched.mode=" + num(sd.mode.load()) + " tag=" + (sd.mode.load() == 2 ? tags().name[sd.tag.load()] : "-") + " role=" + num(sd.role.load())
 		+ " nth=" + num(sd.nth.load()) + " delayUs=" + num(sd.delayUs.load());
 	oplog(desc);
 	for(int e = 0; e < sc.enqueuers; ++e) {
@@ -279,6 +328,8 @@ static void runScenario(uint64_t caseNo, Rng & rng, const char * cfgName)
 		int tid = 1;
 		for(int w = 0; w < sc.waiters; ++w, ++tid) th.push_back(std::thread(&Runner<Q>::waiter, R, tid, w));
 		for(int e = 0; e < sc.enqueuers; ++e, ++tid) th.push_back(std::thread(&Runner<Q>::enqueuer, R, tid, e));
+		std::thread pollThread;
+		if(sc.poller) pollThread = std::thread(&Runner<Q>::poller, R, tid++);
 
 		// quiescence: enqueuers finished and every waiter is registered in the condition variable's waiter list
 		// (or, for short waitFor scenarios, everything has been consumed)
@@ -290,6 +341,18 @@ static void runScenario(uint64_t caseNo, Rng & rng, const char * cfgName)
 				else if((int)cv.parkedCount() == sc.waiters) { quiescent = true; break; }
 			}
 			std::this_thread::sleep_for(std::chrono::microseconds(200));
+		}
+		if(sc.poller && quiescent) {
+			// the poller neither consumes nor notifies; stop it so that the state read below is stable, then make sure the waiters are still parked
+			S->pollStop = true;
+			pollThread.join();
+			count("poller_calls", (uint64_t)S->polls.load());
+			std::this_thread::sleep_for(std::chrono::milliseconds(2));
+			if((int)cv.parkedCount() != sc.waiters) {
+				quiescent = false;
+				const std::chrono::steady_clock::time_point limit2 = std::chrono::steady_clock::now() + std::chrono::seconds(15);
+				while(std::chrono::steady_clock::now() < limit2) { if((int)cv.parkedCount() == sc.waiters) { quiescent = true; break; } std::this_thread::sleep_for(std::chrono::microseconds(200)); }
+			}
 		}
 		if(! quiescent) {
 			const std::string cyc = findLockCycle();
@@ -362,6 +425,7 @@ static void runScenario(uint64_t caseNo, Rng & rng, const char * cfgName)
 	}
 	callbackSink() = nullptr;
 	count("windows_forced", sd.forced.load() - forcedBefore);
+	count("second_windows_forced", sd.forced2.exchange(0));
 	if(sd.mode.load() == 2) count("targeted_cases");
 	if(timedScenario) count("timed_scenarios"); else count("parking_scenarios");
 	const uint64_t sh = syncHash().load(std::memory_order_relaxed);
